@@ -862,6 +862,14 @@ Section Codec.
       | _ => Err TypeError
       end).
 
+  (* if d.get(k): d[k] = CoreSWHID.from_string(d[k]) *)
+  Definition decode_swhid_if_truthy (k : text) : M unit :=
+    x <- get_opt k ;;
+    match x with
+    | Some s => if truthy s then (w <- lift (swhid_of Core s) ;; setk k w) else ret tt
+    | None => ret tt
+    end.
+
   Definition rem_tail : M pyval :=
     t <- get_req k_target ;;
     t' <- lift (swhid_of Extended t) ;;
@@ -870,12 +878,7 @@ Section Codec.
     f <- get_req k_fetcher ;;
     f' <- lift (fst (fd_generic cMetadataFetcher f)) ;;
     copy ;;; setk k_target t' ;;; setk k_authority a' ;;; setk k_fetcher f' ;;;      (* d = {**d, ...} *)
-    fold_right (fun k (rest : M unit) =>
-                  x <- get_opt k ;;
-                  (match x with
-                   | Some s => if truthy s then (w <- lift (swhid_of Core s) ;; setk k w) else ret tt
-                   | None => ret tt
-                   end) ;;; rest)
+    fold_right (fun k (rest : M unit) => decode_swhid_if_truthy k ;;; rest)
                (ret tt) [k_snapshot; k_release; k_revision; k_directory] ;;;
     construct_d cRawExtrinsicMetadata.
 
@@ -1024,7 +1027,7 @@ Section Spec.
         (fix all (l : dict) : Prop :=
            match l with [] => True | kv :: r => plain (fst kv) = true /\ wf (snd kv) /\ all r end) l
     | VEnum e s => In s (members e)
-    | VSwhid k t i => In t (swhid_tags k) /\ List.length i = 20%nat
+    | VSwhid k t i => In t (swhid_tags k) /\ List.length i = 20%nat /\ wf_bytes i = true
     | _ => True
     end.
 End Spec.
